@@ -14,15 +14,16 @@ Property theorems only; the proofs' machinery is in Eru/Strategy/ProofsC03*.lean
 "full before / nothing after" loop specification for DRAINED, the sortedness of the insertion sort
 for DRAINED/EACH/FILL).  The model is Eru/Strategy/Model.lean (`deploy` = strategy.Deploy); `c03`
 and `canTake` (Eru/Strategy/Spec.lean) are the very predicates the oracle evaluates on the Go
-implementation's plans.  Usage and rate are fixed-point integers (see Model.lean); GLOBAL needs the
-per-instance rates to be non-negative.
+implementation's plans.  Usage and rate are fixed-point integers (see Model.lean); GLOBAL — and only
+GLOBAL (`c03_holds` asks for it under `s = .global` alone) — needs the per-instance rates to be non-negative.
 -/
 namespace Eru.Props.C03
 open Eru Eru.Strategy
 
-/-- **C03 (all strategies)**: every plan `deploy` produces satisfies the strategy's balancing rule -/
+/-- **C03 (all strategies)**: every plan `deploy` produces satisfies the strategy's balancing rule.
+Non-negative per-instance rates are required for GLOBAL only; the other four strategies never read them. -/
 theorem c03_holds (sname : String) (s : Strat) (count limit total : Int) (infos : List Info) (p : Plan)
-    (hv : Valid infos) (hr : ∀ i ∈ infos, 0 ≤ i.rate) (hs : Strat.ofString? sname = some s)
+    (hv : Valid infos) (hr : s = .global → ∀ i ∈ infos, 0 ≤ i.rate) (hs : Strat.ofString? sname = some s)
     (h : deploy sname count limit infos total = .ok p) : c03 s infos count limit p = true := by
   unfold deploy at h
   rw [hs] at h
@@ -33,7 +34,7 @@ theorem c03_holds (sname : String) (s : Strat) (count limit total : Int) (infos 
     have hneed : 1 ≤ count := by omega
     cases s with
     | auto => exact (c03_auto_iff ..).mpr (auto_bal hv h)
-    | global => exact (c03_global_iff ..).mpr (global_bal hv hr h)
+    | global => exact (c03_global_iff ..).mpr (global_bal hv (hr rfl) h)
     | drained => exact (c03_drained_iff ..).mpr (drained_bal hv hneed h)
     | each => exact (c03_each_iff ..).mpr (each_bal hv hneed h)
     | fill =>
